@@ -48,13 +48,25 @@ def t_qaplib(text: str) -> str:
     """C09: if the loader accepts a text, n / flows / distances are exactly
     the token stream: first n, then n*n flows, then n*n distances."""
     from moptipyapps.qap.instance import Instance
+    import re
     if len(text) > 20000:
         return "skipped_long"
+    # texts that certainly are valid: plain digit tokens, small n, exactly
+    # 1 + 2 n^2 of them, moderate values - however they are wrapped
+    raw = text.split()
+    plain = bool(raw) and all(re.fullmatch(r"[0-9]{1,6}", t) for t in raw)
+    must_load = False
+    if plain:
+        n0 = int(raw[0])
+        must_load = 1 <= n0 <= 8 and len(raw) == 1 + 2 * n0 * n0
     try:
         inst = Instance.from_qaplib_stream(text.splitlines())
-    except ValueError:
-        return "rejected"
-    except (TypeError, OverflowError, MemoryError):
+    except Exception as e:  # noqa: BLE001
+        if must_load:
+            raise Violation(f"a valid QAPLIB text was not loaded: "
+                            f"{type(e).__name__}: {e}; text={text!r}") from e
+        if isinstance(e, ValueError):
+            return "rejected"
         return "rejected_other"
     toks = _ints(text.split())
     if toks is None or not toks:
